@@ -23,6 +23,31 @@ def nonterminating_split(case):
     return False
 
 
+def load_fragment(prop):
+    """(findings, fixed) of a property from its fragment known-findings.d/<prop>.json - the source
+    known-findings.json is assembled from.  A finding of the fragment replaces the assembled entry of the
+    same id (class text / witness narrowed by a repair), whatever an older assembled file says."""
+    import json
+    import os
+    from common import VERIF
+    p = os.path.join(VERIF, "known-findings.d", prop + ".json")
+    if not os.path.exists(p):
+        return [], []
+    j = json.load(open(p))
+    return ([k for k in j.get("findings", []) if k.get("property") == prop],
+            [k for k in j.get("fixed", []) if k.get("property") == prop])
+
+
+def residue_known(case, sname):
+    """the narrowed class split-residue: a split with a non-terminating factor AND rows of at least two
+    affiliates of the security (the all-affiliate balance is a running rounded value that can drift from
+    the sum of the affiliates' balances).  For a single affiliate the repair 50e93b7 makes the
+    all-affiliate balance equal the affiliate's own balance exactly: a sanity rejection there is a
+    violation."""
+    import residuegen
+    return nonterminating_split(case) and residuegen.n_affiliates(case, sname) >= 2
+
+
 def share_sim_oversale(rows_sorted, init_sh=None):
     """declarative share ledger in exact arithmetic (shares do not depend on
     money): is some sale larger than the holdings / does a whole-number
@@ -254,7 +279,9 @@ def run(res, ctx):
     st = collections.Counter()
     seen = set()
     samples = []
-    known = load_known("C04")
+    frag, fixed = load_fragment("C04")
+    frag_ids = {k["id"]: k for k in frag}
+    known = [frag_ids.get(k["id"], k) for k in load_known("C04")]
     known_ids = {k["id"] for k in known}
     known_hit = collections.Counter()
     corr = []
@@ -266,6 +293,25 @@ def run(res, ctx):
         if first:
             first = False
             cases += possible_corpus()      # hand-written boundary histories for the first_offence pass
+            # regression of fix 50e93b7 (the repaired part of the finding split-residue): after a split with a
+            # non-terminating factor the all-affiliate balance of a single affiliate equals its own balance, so
+            # the next valid row is not rejected by the sanity check; the old witness first
+            import residuegen
+            d0 = core.BASE_DAY + 400
+            def _s(day, act, **kw):
+                x = {"sec": "FOO", "td": d0 + day, "sd": d0 + day, "act": act, "com": None, "cur": None, "rate": None, "af": None}
+                x.update(kw)
+                return x
+            cases.append({"rows": [_s(0, "Buy", sh=core.D(205, 1), aps=core.D(1)), _s(30, "Split", split=("1.0", "3.0")),
+                                   _s(60, "RoC", aps=core.D(1, 2))], "inits": {}, "residue_fixed": True})
+            cases.append({"rows": [_s(0, "Buy", sh=core.D(10), aps=core.D(1)), _s(30, "Split", split=("4", "3")),
+                                   _s(60, "Buy", sh=core.D(1), aps=core.D(1)), _s(70, "Sell", sh=core.D(2), aps=core.D(3)),
+                                   _s(80, "RoC", aps=core.D(1, 2))], "inits": {}, "residue_fixed": True})
+            for _ in range(60 if tier == "quick" else 1500):
+                single = rng.random() < 0.6
+                afs = rng.choice([[None], ["B"], ["Spouse"]]) if single else None
+                cases.append({"rows": residuegen.residue_history(rng, afs=afs), "inits": {}, "residue_fixed": single})
+                st["residue-histories"] += 1
             # crafted (regression of fix 397da52 and its neighbours): a loss sale, then a split, then the
             # sale of EXACTLY the whole position inside the 30-day look-ahead of the loss sale - valid,
             # whatever the ratio; and the same with one share too many - impossible
@@ -345,7 +391,22 @@ def run(res, ctx):
             st["rows"] += row_invariants(r, res)
             if i["status"] == "panic":
                 st["impl-panic"] += 1
+                if r["case"].get("residue_fixed") is not None:
+                    res.violation("failing-input", "panic on a history with a non-terminating split factor (fix 50e93b7): %s" % i["panic"][:300],
+                                  {"input": r["hc"], "actual_impl": i["panic"]})
                 continue
+            if r["case"].get("residue_fixed") and i["status"] == "ok":
+                # single affiliate: C04_single_affiliate_no_residue - the all-affiliate balance IS the
+                # affiliate's balance on every row, and no row is rejected by the sanity check
+                st["residue-single-affiliate"] += 1
+                for s_, so_ in i["secs"].items():
+                    badrow = [d for d in so_["deltas"] if d["post"][0] != d["post"][1]]
+                    sanity = so_["stop"][0] == 1 and so_["stop"][1] == 1     # other rejections: the regular passes judge them
+                    if badrow or sanity:
+                        res.violation("failing-input", "single affiliate, non-terminating split factor: %s" % (
+                            "rejected by the sanity check: %s" % so_.get("msg") if sanity else
+                            "all-affiliate balance %s differs from the affiliate's balance %s" % (badrow[0]["post"][1], badrow[0]["post"][0])),
+                                      {"input": r["hc"], "actual_impl": so_.get("msg")})
             # ---- rejected iff impossible: implementation vs exact-arithmetic decisions
             if i["status"] == "err":
                 st["general-error"] += 1
@@ -372,7 +433,7 @@ def run(res, ctx):
                 x_rej = xs["stop"][0] == 1
                 if rejected and cls == 17 and "global-split-near" in known_ids:
                     known_hit["global-split-near"] += 1
-                elif rejected and cls == 1 and nonterminating_split(r["case"]) and "split-residue" in known_ids:
+                elif rejected and cls == 1 and residue_known(r["case"], sname) and "split-residue" in known_ids:
                     known_hit["split-residue"] += 1
                 elif rejected and cls not in LISTED:
                     res.violation("failing-input", "security %s rejected for a reason the property does not list (%s): %s" % (sname, core.REJ_NAMES.get(cls, cls), so.get("msg")),
@@ -484,6 +545,17 @@ def run(res, ctx):
     # the writers inside the model (Model/Output.v): files, records, sections and closing line of the real binary
     import outputmodel
     outputmodel.check_pass(res, ctx, "C04", rng)
+    # fixed findings with a witness: regression cases that must now be ACCEPTED
+    for k in fixed:
+        w = k.get("witness", {})
+        if "csv" not in w:
+            continue
+        o = common_run_witness(ctx, w["csv"])
+        st["fixed-witness-replayed"] += 1
+        if o["status"] != "ok" or any(v["err"] is not None for v in o["secs"].values()):
+            res.violation("failing-input", "the witness of the fixed finding %s (%s) is not accepted: %s" % (
+                k.get("id"), k["commit"], str(o.get("err") or o.get("panic") or [v["err"] for v in o.get("secs", {}).values()])[:300]),
+                          {"input": {"files": [w["csv"]]}, "actual_impl": str(o)[:1500]})
     # replay the witness of every listed finding on the current tree
     for k in known:
         w = k.get("witness", {})
